@@ -2550,6 +2550,35 @@ func runR95(c *Ctx) {
 					c.undecided(key, p.instrPos(ds), "the data of the new column is neither the source's nor allocated here")
 					continue
 				}
+				// the data may be produced by a helper of the package (translateCodes(data, oldToNew)): the loop is then
+				// looked for, and evaluated, in that helper - on the slice it returns, with `fresh` read through the
+				// helper's parameters at this call
+				fn, isFresh := fn, isFresh
+				if hc, isCall := a.v.(*ssa.Call); isCall {
+					if h := hc.Call.StaticCallee(); h != nil && h.Pkg == fn.Pkg && h.Blocks != nil && h.Signature.Results().Len() == 1 {
+						var ret ssa.Value
+						eachInstr(h, func(in ssa.Instruction) {
+							if r, ok := in.(*ssa.Return); ok {
+								ret = r.Results[0]
+							}
+						})
+						if ret != nil {
+							outerFresh := isFresh
+							caller := hc
+							fn, a.v = h, ret
+							isFresh = func(v ssa.Value) bool {
+								if prm, ok := rootValue(v).(*ssa.Parameter); ok && prm.Parent() == h {
+									for i, q := range h.Params {
+										if q == prm && i < len(caller.Call.Args) {
+											return outerFresh(caller.Call.Args[i])
+										}
+									}
+								}
+								return freshSlice(v, map[ssa.Value]bool{})
+							}
+						}
+					}
+				}
 				// the loop that fills it: evaluate one iteration in the worlds null / not null
 				var fill *ssa.Store
 				eachInstr(fn, func(in ssa.Instruction) {
